@@ -37,11 +37,59 @@ def mark_stmt(k, mode):
     return "mark(%d);" % k if mode == "api" else 'print("C19MARK<%d>");' % k
 
 
+HELPERS = {
+    "dbl": "fn c19_dbl(x: i32) -> i32 {\n    2 * x\n}\n",
+    "maybe": "fn c19_maybe(x: i32) -> i32? {\n    Option.Some(x)\n}\n",
+    "rec": "record C19Rec { x: i32 }\n",
+}
+BODY_NEEDS = {"fstr_i32": ["dbl"], "helper_call": ["dbl"], "fstr_option": ["maybe"], "match": ["maybe"],
+              "fstr_record": ["rec"]}
+FSTR_VALID = ("fstr_i32", "fstr_bool", "fstr_string")
+FSTR_INVALID = ("fstr_option", "fstr_record", "fstr_list")
+
+
+def body_form(form, i):
+    """-> (statements, condition or None).  A valid form's condition holds in the language
+    semantics; the block ends in its `out` when it holds and in the opposite verdict otherwise.
+    Invalid forms (interpolation of a type without to_string) have no condition."""
+    if form == "plain":
+        return [], None
+    if form == "fstr_i32":
+        return ['let s = f"v={c19_dbl(%d)}";' % i], 's == "v=%d"' % (2 * i)
+    if form == "fstr_bool":
+        return ['let s = f"{%d > 0}!";' % i], 's == "true!"'
+    if form == "fstr_string":
+        return ['let w = "ab%d";' % i, 'let s = f"<{w}>";'], 's == "<ab%d>"' % i
+    if form == "strcmp":
+        return ['let a = "x" + "y%d";' % i], 'a == "xy%d" && a != "yx"' % i
+    if form == "let_if":
+        return ["let v = if %d > 0 { %d + 1 } else { 0 };" % (i, i)], "v == %d" % (i + 1)
+    if form == "match":
+        return ["let v = match c19_maybe(%d) {\n        Some(x) => x,\n        None => 0,\n    };" % i], "v == %d" % i
+    if form == "helper_call":
+        return [], "c19_dbl(%d) == %d" % (i, 2 * i)
+    if form == "list_ops":
+        return ["let l = [%d];" % i, "l.push(%d);" % (i + 1)], "l.len() == 2 && l.contains(%d)" % (i + 1)
+    if form == "fstr_option":
+        return ['let s = f"{c19_maybe(%d)}";' % i], None
+    if form == "fstr_record":
+        return ["let r = C19Rec { x: %d };" % i, 'let s = f"{r}";'], None
+    if form == "fstr_list":
+        return ["let l = [%d];" % i, 'let s = f"{l}";'], None
+    raise vlib.ToolError("unknown body form %r" % form)
+
+
 def render_test(i, t, mode):
     body = ["    " + mark_stmt(i, mode)]
     if t["call"]:
         body.append("    %s();" % nm(t["call"]))
-    body.append("    " + t["out"])
+    stmts, cond = body_form(t.get("body", "plain"), i)
+    body += ["    " + x for x in stmts]
+    if cond is None:
+        body.append("    " + t["out"])
+    else:
+        other = "reject" if t["out"] == "accept" else "accept"
+        body.append("    if %s {\n        %s\n    } else {\n        %s\n    }" % (cond, t["out"], other))
     return "test %s {\n%s\n}\n" % (nm(t["name"]), "\n".join(body))
 
 
@@ -57,23 +105,45 @@ def render_fn(j, f, mode):
     raise vlib.ToolError("unknown sig %r" % (f,))
 
 
-def render_pkg(pkg, mode):
-    """-> list of {"mod": [names], "src": text}, root first, parents before children.
-    Tests keep their declaration order (the order of pkg.tests); functions are put at
-    pseudo-random positions between them; sibling order of module files is shuffled:
-    none of this may influence what the specification expects."""
+def layout(pkg, mode):
+    """-> list of (module path, [(kind, index, text)]), root first, parents before children.
+    kind: "test" | "fn" | "helper" | "type" | "broken".  Tests keep their declaration order (the
+    order of pkg.tests).  pkg.fnpos says where functions and helper declarations stand: before all
+    tests of the file ("first"), after them ("last") or at pseudo-random places between them
+    ("mixed"); sibling module files are in shuffled order.  None of this may influence what the
+    specification expects."""
     rng = random.Random(vlib.shash(pkg))
     mods = [tuple(nm(x) for x in m) for m in pkg["mods"]]
-    items = {m: [] for m in mods}
+    tests = {m: [] for m in mods}
+    others = {m: [] for m in mods}
+    needs = {m: [] for m in mods}
     for i, t in enumerate(pkg["tests"], start=1):
-        items[tuple(nm(x) for x in t["mod"])].append(render_test(i, t, mode))
+        m = tuple(nm(x) for x in t["mod"])
+        tests[m].append(("test", i, render_test(i, t, mode)))
+        for h in BODY_NEEDS.get(t.get("body", "plain"), []):
+            if h not in needs[m]:
+                needs[m].append(h)
     for j, f in enumerate(pkg["funcs"], start=1):
-        lst = items[tuple(nm(x) for x in f["mod"])]
-        lst.insert(rng.randrange(len(lst) + 1), render_fn(j, f, mode))
+        others[tuple(nm(x) for x in f["mod"])].append(("fn", j, render_fn(j, f, mode)))
+    for m in mods:
+        for h in needs[m]:
+            others[m].append(("type" if h == "rec" else "helper", 0, HELPERS[h]))
+        rng.shuffle(others[m])
+    items = {}
+    fnpos = pkg.get("fnpos", "mixed")
+    for m in mods:
+        if fnpos == "first":
+            items[m] = others[m] + tests[m]
+        elif fnpos == "last":
+            items[m] = tests[m] + others[m]
+        else:
+            items[m] = list(tests[m])
+            for o in others[m]:
+                items[m].insert(rng.randrange(len(items[m]) + 1), o)
     if pkg["broken"] != "none":
         m = rng.choice(mods)
         bad = "fn broken_( {\n" if pkg["broken"] == "syntax" else "fn broken_() -> u64 {\n    true\n}\n"
-        items[m].insert(rng.randrange(len(items[m]) + 1), bad)
+        items[m].insert(rng.randrange(len(items[m]) + 1), ("broken", 0, bad))
     # parents before children, siblings in shuffled order
     order = []
 
@@ -86,7 +156,33 @@ def render_pkg(pkg, mode):
     visit(())
     if len(order) != len(mods):
         raise vlib.ToolError("module tree not closed under parents: %r" % (mods,))
-    return [{"mod": list(m), "src": "\n".join(items[m])} for m in order]
+    return [(m, items[m]) for m in order]
+
+
+def render_pkg(pkg, mode):
+    """-> list of {"mod": [names], "src": text} (see layout)"""
+    return [{"mod": list(m), "src": "\n".join(x[2] for x in its)} for m, its in layout(pkg, mode)]
+
+
+def positions(pkg):
+    """where the test blocks ended up: {test index: set of "first"|"middle"|"last"|"only" within
+    its file (among items that are type checked: tests, functions)}, and the index of the test
+    that is the last such item of the last file (or None)."""
+    lay = layout(pkg, "api")
+    pos = {}
+    for m, its in lay:
+        chk = [x for x in its if x[0] != "type"]
+        for k, x in enumerate(chk):
+            if x[0] == "test":
+                pos[x[1]] = ("only" if len(chk) == 1 else "first" if k == 0 else
+                             "last" if k == len(chk) - 1 else "middle")
+    last = None
+    for m, its in reversed(lay):
+        chk = [x for x in its if x[0] != "type"]
+        if chk:
+            last = chk[-1][1] if chk[-1][0] == "test" else None
+            break
+    return pos, last
 
 
 def write_cli_pkg(pkg, root, key):
@@ -153,6 +249,24 @@ def features(case):
                 fs.add("call_unknown")
     if pkg["broken"] != "none":
         fs.add("broken_" + pkg["broken"])
+    bodies = [t.get("body", "plain") for t in tests]
+    bad_body = any(b in FSTR_INVALID for b in bodies)
+    interp_last = None
+    if any(b != "plain" for b in bodies):
+        pos, last = positions(pkg)
+        for i, (t, b) in enumerate(zip(tests, bodies), start=1):
+            if b != "plain":
+                fs.add("body:" + b)
+                fs.add("body_pos_" + pos[i])
+                fs.add("body_%s_%s" % ("invalid" if b in FSTR_INVALID else "valid", t["out"]))
+        if last is not None and bodies[last - 1] in FSTR_VALID + FSTR_INVALID:
+            interp_last = "interp_last_" + ("valid" if bodies[last - 1] in FSTR_VALID else "invalid")
+            if cmd["kind"] == "api":
+                fs.add(interp_last)
+                if len(pkg["mods"]) > 1 and tests[last - 1]["mod"]:
+                    fs.add(interp_last + "_in_last_module")
+            elif len(pkg["mods"]) == 1:       # directory packages: the CLI's file order is the OS's
+                fs.add("cli:%s:%s" % (cmd["kind"], interp_last))
     if case["compiles"]:
         tm = [k for k in case["log"] if k < 100]
         if tm and tm != sorted(tm):
@@ -168,7 +282,8 @@ def features(case):
     if kind != "api":
         cause = "ok"
         if not case["compiles"]:
-            cause = "compile_" + ("dup_test" if dup else ("broken" if pkg["broken"] != "none" else "bad_call"))
+            cause = "compile_" + ("dup_test" if dup else "broken" if pkg["broken"] != "none" else
+                                  "body" if bad_body else "bad_call")
         elif kind == "test" and case["exit"] == "failure":
             cause = "reject"
         elif kind == "run" and case["exit"] == "failure":
@@ -189,13 +304,24 @@ def features(case):
 API_REQUIRED = ["dup_test", "zero_tests", "some_reject", "all_accept", "tests_in_two_modules", "multi_module",
                 "fn_named_like_test", "call_fn_shadowing_test_name", "call_fn", "call_test_only",
                 "order_differs_from_declaration", "submodule_before_root", "root_before_submodule"]
+ALL_BODIES = ["plain", "fstr_i32", "fstr_bool", "fstr_string", "strcmp", "let_if", "match", "helper_call", "list_ops",
+              "fstr_option", "fstr_record", "fstr_list"]
+API_REQUIRED += ["body:" + b for b in ALL_BODIES if b != "plain"] + [
+    "body_pos_first", "body_pos_middle", "body_pos_last", "body_pos_only",
+    "body_valid_accept", "body_valid_reject", "body_invalid_accept", "body_invalid_reject",
+    "interp_last_valid", "interp_last_invalid", "interp_last_valid_in_last_module",
+    "interp_last_invalid_in_last_module"]
 CLI_REQUIRED = ["cli:check:ok", "cli:check:compile_broken", "cli:check:compile_dup_test", "cli:check:compile_bad_call",
                 "cli:test:ok", "cli:test:reject", "cli:test:compile_broken", "cli:test:compile_dup_test",
                 "cli:test:compile_bad_call",
                 "cli:run:ok", "cli:run:compile_broken", "cli:run:compile_dup_test", "cli:run:compile_bad_call",
                 "cli:run:entry_missing", "cli:run:entry_param", "cli:run:entry_ret", "cli:run:entry_is_a_test",
                 "cli:run:entry_only_in_submodule", "cli:run+fn:ok", "cli:run+fn:entry_missing",
-                "broken_syntax", "broken_type", "multi_module", "some_reject"]
+                "broken_syntax", "broken_type", "multi_module", "some_reject",
+                "cli:check:compile_body", "cli:test:compile_body", "cli:run:compile_body",
+                "cli:check:interp_last_valid", "cli:check:interp_last_invalid",
+                "cli:test:interp_last_valid", "cli:test:interp_last_invalid",
+                "cli:run:interp_last_valid", "body_valid_reject", "body_valid_accept"]
 
 
 def nontrivial(case):
@@ -203,6 +329,8 @@ def nontrivial(case):
     function shares the name of a test, or a test body contains a call, or the package is
     rejected for a duplicate test; for CLI cases also whenever failure must be reported."""
     fs = features(case)
+    if any(f.startswith("body:") for f in fs):
+        return True
     if fs & {"two_or_more_run", "fn_named_like_test", "dup_test", "call_fn", "call_test_only",
              "call_fn_shadowing_test_name", "call_unknown"}:
         return True
@@ -212,7 +340,7 @@ def nontrivial(case):
 # ------------------------------------------------------------------ TLC cases
 
 def mc_cfg(path, family, max1, max2, tnames, subnames, fnnames, callnames, brokens=("none",),
-           mainsigs=("none",), runnames=(), submain=(False,)):
+           mainsigs=("none",), runnames=(), submain=(False,), bodies=("plain",), fnpos=("mixed",), nodups=False):
     def sset(xs):
         return "{%s}" % ", ".join('"%s"' % x for x in xs)
     with open(path, "w") as f:
@@ -229,10 +357,14 @@ CONSTANTS
   MainSigs = %s
   RunNames = %s
   SubMain = {%s}
+  BodyForms = %s
+  FnPositions = %s
+  NoDups = %s
 INVARIANTS MCInv Emit
 CHECK_DEADLOCK FALSE
 """ % (family, max1, max2, sset(tnames), sset(subnames), sset(fnnames), sset(callnames), sset(brokens),
-       sset(mainsigs), sset(runnames), ", ".join("TRUE" if b else "FALSE" for b in submain)))
+       sset(mainsigs), sset(runnames), ", ".join("TRUE" if b else "FALSE" for b in submain),
+       sset(bodies), sset(fnpos), "TRUE" if nodups else "FALSE"))
 
 
 def plans(tier):
@@ -257,6 +389,14 @@ def plans(tier):
         cli = [("cli", dict(max1=2, max2=2, tnames=["a", "main"], subnames=["m", "u"], fnnames=["a"], callnames=["a"],
                             brokens=["none", "syntax", "type"], mainsigs=["none", "unit", "param", "ret"],
                             runnames=["a"], submain=[False, True]))]
+    # test bodies from the grammar of statement forms x position of the block x its verdict
+    pos3 = ["first", "last", "mixed"]
+    big = tier != "quick"
+    api.append(("api_body", dict(max1=2, max2=2 if big else 1, tnames=["a", "b"], subnames=["m"], fnnames=[],
+                                 callnames=[], bodies=ALL_BODIES, fnpos=pos3, nodups=True)))
+    cli.append(("cli_body", dict(max1=2 if big else 1, max2=1, tnames=["a"] if not big else ["a", "b"], subnames=["m"],
+                                 fnnames=[], callnames=[], brokens=["none"], mainsigs=["unit"], runnames=[],
+                                 submain=[False], bodies=ALL_BODIES, fnpos=pos3, nodups=True)))
     return api, cli
 
 
@@ -455,10 +595,12 @@ def random_pkg(rng, flat, big):
             call = rng.choice(here)["name"]
         elif rng.random() < 0.04:
             call = codes(rng.choice(NAMES))      # mostly unresolvable (possibly the name of a test)
+        body = rng.choices(["plain", rng.choice(ALL_BODIES[1:9]), rng.choice(ALL_BODIES[9:])], [50, 47, 3])[0]
         tests.append({"mod": [codes(x) for x in m], "name": codes(n),
-                      "out": rng.choices(["accept", "reject"], [4, 1])[0], "call": call})
+                      "out": rng.choices(["accept", "reject"], [4, 1])[0], "call": call, "body": body})
     broken = rng.choices(["none", "syntax", "type"], [38, 1, 1])[0]
-    return {"mods": [[codes(x) for x in m] for m in mods], "tests": tests, "funcs": funcs, "broken": broken}
+    return {"mods": [[codes(x) for x in m] for m in mods], "tests": tests, "funcs": funcs, "broken": broken,
+            "fnpos": rng.choice(["first", "first", "last", "mixed"])}
 
 
 def chunk_marks(marks):
@@ -482,6 +624,12 @@ def impl_to_spec(tier, ev, verd, corrupt=None):
 
     # --- Package::run_tests from a host
     pkgs = [random_pkg(rng, False, True) for _ in range(napi)]
+    api_cmd0 = {"kind": "api"}
+    nlast = sum(1 for p in pkgs if any(f.startswith("interp_last") for f in features(
+        {"pkg": p, "cmd": api_cmd0, "compiles": False, "log": []})))
+    ev.extra["recorded_packages_ending_in_interpolating_test"] = nlast
+    if nlast == 0:
+        raise vlib.ToolError("no random package ends in a test block with a string interpolation")
     cases = [{"files": render_pkg(p, "api")} for p in pkgs]
     results = vlib.run_batch("c19", cases, nproc=8, pid=PID, tag="rec", stall=60)
     api_cmd = {"kind": "api", "explicit": False, "fn": codes("main")}
@@ -593,6 +741,8 @@ def run(tier):
               (pick(cases["api"], lambda c: "dup_test" in features(c)), "api"),
               (pick(cases["cli"], lambda c: "cli:run:entry_is_a_test" in features(c)), "cli"),
               (pick(cases["cli"], lambda c: "cli:test:reject" in features(c) and len(c["log"]) >= 2), "cli")]
+    chosen[2:3] = [(pick(cases["api"], lambda c: "interp_last_valid" in features(c) and len(c["log"]) >= 2), "api"),
+                   (pick(cases["cli"], lambda c: "cli:check:interp_last_invalid" in features(c)), "cli")]
     ev.samples = [sample(c, m) for c, m in chosen if c is not None]
 
     # S->I, api family
